@@ -353,7 +353,8 @@ def rule_line_positions(chk, prog, tier):
 
 def rule_errorlocs(chk, prog, tier):
     r = chk.rule('C11.f', 'every error() call names a location taken from a token or the scanner position; decode errors inside a concatenated string literal use the offending piece\'s own location', floor=150)
-    ok_forms = ('&tok.loc', '&t->loc', '&s->loc', '&p->loc', 'loc', '&scanner->loc')
+    # '&g->loc' (struct gotolabel) and '&d->u.obj.loc' (struct decl) are locations recorded from tok.loc when the goto / declaration was parsed; rule C11.i decides that they are
+    ok_forms = ('&tok.loc', '&t->loc', '&s->loc', '&p->loc', 'loc', '&scanner->loc', '&g->loc', '&d->u.obj.loc')
     for fn in prog.all_funcs():
         for c in [x for x in walk(fn) if x.get('kind') == 'CallExpr' and callee_name(x) == 'error']:
             a = text(c['inner'][1])
@@ -422,6 +423,73 @@ def rule_tokencheck(chk, prog, tier):
     r.exhaustive = True
 
 
+def rule_deferred(chk, prog, tier):
+    r = chk.rule('C11.i', 'a diagnostic raised after the construct has been left - an undefined label at the end of the function, an incomplete tentative definition at the end of the unit - names the line where the construct '
+                 '(the goto, the declaration) was seen, not the token the parser has reached by then', floor=4)
+    fg = prog.require_func('funcgoto', 'qbe.c')
+    df = prog.require_func('delfunc', 'qbe.c')
+    etd = prog.require_func('emittentativedefns', 'decl.c')
+    mkd = prog.require_func('mkdecl', 'decl.c')
+    def settok(it, line, col):
+        tokobj = it.gobj('tok'); tokobj.f[('kind',)] = ev(prog, 'TSEMICOLON'); tokobj.f[('lit',)] = None
+        tokobj.f[('loc', 'file')] = Ptr(it.mkstr(list(b'cur.c'), 'f'), (0,)); tokobj.f[('loc', 'line')] = line; tokobj.f[('loc', 'col')] = col
+    def errmodel(seen):
+        def error(i2, a, e):
+            loc = a[0]
+            seen['loc'] = i2.load(loc.obj, loc.path + ('line',)) if isinstance(loc, Ptr) else None
+            raise Terminal('error', cmodel.fmt_of(i2, a, 1))
+        return error
+    # ---- goto of a label that is never defined
+    for nuses in (1, 2):
+        def runner(it):
+            w = World(prog, it=it, target='x86_64-sysv')
+            seen = {}
+            it.models.update(cmodel.backend_models(prog))
+            it.models.update({'error': errmodel(seen), 'xmalloc': lambda i2, a, e: Ptr(Obj('heap@%s' % e.get('line'), 'heap'), ()), 'free': lambda i2, a, e: None,
+                              'mkblock': lambda i2, a, e: Ptr(Obj('block', 'heap'), ())})
+            f = Obj('func', 'heap'); f.f[('start',)] = None; f.f[('end',)] = None
+            for k in ('len', 'cap'): f.f[('gotos', k)] = 0
+            f.f[('gotos', 'keys')] = None; f.f[('gotos', 'vals')] = None
+            it.call('mapinit', [Ptr(f, ('gotos',)), 8])
+            settok(it, 5, 14)
+            g = it.call(fg, [Ptr(f, ()), Ptr(it.mkstr(list(b'nowhere'), 'n'), (0,))])
+            if nuses == 2:
+                settok(it, 8, 14); it.call(fg, [Ptr(f, ()), Ptr(it.mkstr(list(b'nowhere'), 'n'), (0,))])
+            settok(it, 12, 1)        # the token after the function's closing brace
+            try: it.call(df, [Ptr(f, ())])
+            except Terminal: pass
+            return seen.get('loc', 'no diagnostic')
+        runs = explore(prog, runner, {}, max_runs=4, on_unsupported='keep')
+        if len(runs) != 1 or runs[0].outcome != 'return':
+            raise AnalysisBroken('delfunc: %s %s' % (runs[0].outcome if runs else '?', runs[0].detail if runs else ''))
+        ok = runs[0].value in ((5,) if nuses == 1 else (5, 8))
+        r.instance(ok, 'deferred:undefined-label,%d goto%s' % (nuses, 's' if nuses > 1 else ''), 'qbe.c:%s' % df.get('line'),
+                   'the goto statement%s on line %s; the diagnostic names line %s (the parser is at line 12 when the function ends)' % ('s are' if nuses > 1 else ' is', '5 and 8' if nuses > 1 else '5', runs[0].value))
+    # ---- tentative definition whose type is still incomplete at the end of the unit
+    for what in ('void', 'struct'):
+        def runner(it):
+            w = World(prog, it=it, target='x86_64-sysv')
+            seen = {}
+            it.models.update({'error': errmodel(seen), 'xmalloc': lambda i2, a, e: Ptr(Obj('heap@%s' % e.get('line'), 'heap'), ()), 'free': lambda i2, a, e: None,
+                              'emitdata': lambda i2, a, e: None, 'funcinit': lambda i2, a, e: None})
+            if what == 'void': t = w.t('void')
+            else: t = w.mkstruct(size=0, align=0); t.obj.f[('incomplete',)] = 1
+            settok(it, 5, 7)
+            d = it.call(mkd, [Ptr(it.mkstr(list(b'v'), 'v'), (0,)), ev(prog, 'DECLOBJECT'), t, 0, ev(prog, 'LINKEXTERN')])
+            d.obj.f[('u', 'obj', 'storage')] = ev(prog, 'SDSTATIC'); d.obj.f[('tentative',)] = 1
+            it.gobj('tentativedefns').f[()] = d
+            settok(it, 30, 1)        # end of file
+            try: it.call(etd, [])
+            except Terminal: pass
+            return seen.get('loc', 'no diagnostic')
+        runs = explore(prog, runner, {}, max_runs=4, on_unsupported='keep')
+        if len(runs) != 1 or runs[0].outcome != 'return':
+            raise AnalysisBroken('emittentativedefns: %s %s' % (runs[0].outcome if runs else '?', runs[0].detail if runs else ''))
+        r.instance(runs[0].value == 5, 'deferred:incomplete-tentative,%s' % what, 'decl.c:%s' % etd.get('line'),
+                   'the declaration is on line 5; the diagnostic names line %s (the parser is at line 30, the end of the file)' % (runs[0].value,))
+    r.exhaustive = False
+
+
 def run(chk, tier):
     prog = facts.programs()['cproc-qbe']
     chk.guard('C11.a', lambda: rule_format(chk, prog, tier))
@@ -431,3 +499,4 @@ def run(chk, tier):
     chk.guard('C11.f', lambda: rule_errorlocs(chk, prog, tier))
     chk.guard('C11.g', lambda: rule_tokencheck(chk, prog, tier))
     chk.guard('C11.h', lambda: rule_line_positions(chk, prog, tier))
+    chk.guard('C11.i', lambda: rule_deferred(chk, prog, tier))
